@@ -13,7 +13,11 @@ Inductive uspec :=
 | UContract (rg : rgrid) (p : contract_p) (mx mn : list take)
 | UMulti (rg : rgrid) (p : contract_p) (mx mn : list take) (nodes : list string) (factors : vec)
 | UStorage (rg : rgrid) (p : storage_p)
-| UTransport (rg : rgrid) (p : transport_p).
+| UTransport (rg : rgrid) (p : transport_p)
+| UExtTransport (rg : rgrid) (p : transport_p) (mx mn : list take).
+
+(* ExtendedTransport: the take values refer to the quantity leaving node 1 and are negated (assets.py:2357-2394) *)
+Definition neg_tk (tks : list take) : list take := map (fun t => (fst t, - snd t)) tks.
 
 Definition contract_pr (g : grid) (rg : rgrid) (p : contract_p) : vec :=
   pick 0 match cp_price p with Some v => v | None => repeat 0 (g_T g) end (rg_I rg).
@@ -55,6 +59,12 @@ Definition mk_unit (g : grid) (u : uspec) : option unit_ :=
       | Some a => Some {| u_name := tp_name p; u_prob := a; u_dec := fun x => x;
                           u_tb := tb_transport rg (tp_n1 p) (tp_n2 p) (transport_costs g rg p) (tp_min p) (tp_max p) (tp_eff p) |}
       | None => None end
+  | UExtTransport rg p mx mn =>
+      match transport g rg p with
+      | Some a => Some {| u_name := tp_name p;
+                          u_prob := {| ap_lp := add_rows (ap_lp a) (ext_rows g rg p a (neg_tk mx) (neg_tk mn)); ap_map := ap_map a |};
+                          u_dec := fun x => x; u_tb := tb_ext_transport g rg p a (neg_tk mx) (neg_tk mn) |}
+      | None => None end
   end.
 
 Definition is_none {A} (o : option A) : bool := match o with None => true | Some _ => false end.
@@ -82,7 +92,7 @@ Definition unit_hyps (g : grid) (u : uspec) : bool :=
       is_none (rg_minor rg) && negb (sp_no_simult p) && is_none (sp_max_dur p) && negb (Nat.eqb (rg_T rg) 0) &&
       len_is (rg_dt rg) (rg_T rg) && len_is (rg_disc rg) (rg_T rg) &&
       match sp_price p with Some v => len_is v (g_T g) | None => true end
-  | UTransport rg p =>
+  | UTransport rg p | UExtTransport rg p _ _ =>
       is_none (rg_minor rg) && len_is (rg_dt rg) (rg_T rg) && len_is (rg_disc rg) (rg_T rg) &&
       len_is (transport_costs g rg p) (rg_T rg) && negb (String.eqb (tp_n1 p) (tp_n2 p))
   end.
@@ -99,7 +109,7 @@ Ltac split_andb := repeat match goal with H : andb _ _ = true |- _ => apply andb
 (* passing the boolean test puts the unit under the instance theorems *)
 Theorem mk_unit_ok g u un : mk_unit g u = Some un -> unit_hyps g u = true -> u_ok un.
 Proof.
-  destruct u as [rg p|rg p mx mn|rg p mx mn nodes factors|rg p|rg p]; cbn [mk_unit unit_hyps]; intros Hm Hh.
+  destruct u as [rg p|rg p mx mn|rg p mx mn nodes factors|rg p|rg p|rg p mx mn]; cbn [mk_unit unit_hyps]; intros Hm Hh.
   - destruct (simple_contract g rg p) as [a|] eqn:Ea; [|discriminate].
     destruct (mkvec rg (cp_max p) None true) as [maxc|] eqn:E1; [|discriminate].
     destruct (mkvec rg (cp_min p) None true) as [minc|] eqn:E2; [|discriminate].
@@ -140,6 +150,10 @@ Proof.
   - destruct (transport g rg p) as [a|] eqn:Ea; [|discriminate]. inversion Hm; subst un. clear Hm.
     split_andb.
     apply (transport_unit_ok g rg p a); auto using is_none_spec, len_is_spec.
+    apply negb_true_iff. assumption.
+  - destruct (transport g rg p) as [a|] eqn:Ea; [|discriminate]. inversion Hm; subst un. clear Hm.
+    split_andb.
+    apply (ext_transport_unit_ok g rg p a); auto using is_none_spec, len_is_spec.
     apply negb_true_iff. assumption.
 Qed.
 
